@@ -22,7 +22,7 @@ ASSUMPTIONS = ['unpredictability of os.urandom / OpenSSL RNG is not decidable by
                'ECDH ephemeral keys and RSA padding come from OpenSSL and are visible only through outputs']
 MIN_COUNTERS = {'quick': {'operations': 180, 'session_keys_checked': 120, 'prefixes_checked': 120, 'salts_checked': 40, 'ivs_checked': 15, 'ephemerals_checked': 60, 'urandom_calls_seen': 300, 'reprotect_operations': 5, 'chained_recipient_operations': 10},
                 'thorough': {'operations': 3000}}
-BUDGET = {'quick': (240, 800), 'thorough': (1800, 3600)}
+BUDGET = {'quick': (600, 1500), 'thorough': (1800, 3600)}
 TECHNIQUE = 'runtime monitoring: history monitor with interposed os.urandom (recording proxy) + reference extraction of secrets from outputs; freshness/size/provenance invariants'
 
 
